@@ -42,27 +42,41 @@ func (eq equator) equalMessage(mx, my pref.Message) bool {
 		return false
 	}
 
-	nx := 0
 	equal := true
 	mx.Range(func(fd pref.FieldDescriptor, vx pref.Value) bool {
-		nx++
-		vy := my.Get(fd)
-		equal = my.Has(fd) && eq.equalField(fd, vx, vy)
+		if my.Has(fd) {
+			equal = eq.equalField(fd, vx, my.Get(fd))
+		} else {
+			equal = eq.equalUnset(fd, vx, my.Get(fd))
+		}
 		return equal
 	})
 	if !equal {
 		return false
 	}
-	ny := 0
-	my.Range(func(fd pref.FieldDescriptor, vx pref.Value) bool {
-		ny++
-		return true
+	// fields populated in y only
+	my.Range(func(fd pref.FieldDescriptor, vy pref.Value) bool {
+		if !mx.Has(fd) {
+			equal = eq.equalUnset(fd, mx.Get(fd), vy)
+		}
+		return equal
 	})
-	if nx != ny {
+	if !equal {
 		return false
 	}
 
 	return eq.equalUnknown(mx.GetUnknown(), my.GetUnknown())
+}
+
+// equalUnset compares a field that is populated on one side only; the other side reads as the zero value.
+// A singular field without presence has no "unset" state distinct from zero, so a value comparer that applies to it
+// (e.g. FloatValueApprox) decides. Without such a comparer the sides differ, like in proto.Equal.
+func (eq equator) equalUnset(fd pref.FieldDescriptor, x, y pref.Value) bool {
+	if eq.cmpValue == nil || fd.HasPresence() || fd.IsList() || fd.IsMap() {
+		return false
+	}
+	equal, ok := eq.cmpValue(fd, x, y)
+	return ok && equal
 }
 
 // equalField compares two fields.
